@@ -11,7 +11,7 @@ The unrepaired class F11b (`Clash c`: some entry's key followed by `<any>` is a 
 entry's key, e.g. `lx: 5` with `lx.<any>.log: t`) is excluded by an explicit decidable hypothesis;
 `capture_eq_spec_witness` shows the statement is false inside that class.
 -/
-import Desverif.Proofs.CfgTyped
+import Desverif.Proofs.CfgHandles
 namespace C17
 open Cfg CfgSpec
 
@@ -97,12 +97,43 @@ theorem include_order_irrelevant (ops1 ops2 : List SOp) (s1 s2 : Sim)
   rw [hc, a2] at a1
   exact (Except.ok.inj a1).symm
 
-/-- **Typed slot.** Once a property holds a value of type `tv.ty`, under every sequence of typed
-    accesses (`prop::<T>(key)` followed by `get`, `or_default().get()` or `set(v : T)`) and for
-    every deserialiser: it still holds a value of that type at the end, every access with another
-    type is answered `InvalidInput`, and no access with the right type is, nor does one ever
-    return a value of another type. -/
-theorem typed_slot_keeps_type (cv : Ty → Val → Option TV) (tv : TV) (ops : List (Ty × TOp))
+/-- **Typed slot, several live handles.**  Scripts over ONE property: `hₙ = prop::<T>(key)` (any number of
+    handles alive at once), `get` / `or_default` / `set` / `clear` / drop through any live handle —
+    fresh or stale —, and `RawProp::clear`.  For every script, every start state (any slot, any set
+    of live handles of any types), every deserialiser, at every executed step: if the property
+    holds a value of type `t` before the step then
+    * afterwards it still holds a value of type `t`, unless the step is a clear (then it is absent);
+    * if the step carries another type (a new `prop::<T>` call, or `get`/`or_default`/`set` through a
+      handle of another type, however long ago it was obtained) the answer is an error
+      (`InvalidInput`, or a panic of the handle) and the slot is unchanged — never a
+      reinterpretation, never a silent re-typing;
+    * every value returned has type `t`. -/
+theorem typed_slot_keeps_type (cv : Ty → Val → Option TV) (st : MState) (ops : List MOp) :
+    ∀ e ∈ mtrace cv st ops, ∀ t, e.1.slot.held = some t →
+      (e.2.2.2.slot.held = some t ∨ (clears e.1 e.2.1 ∧ e.2.2.2.slot.held = none)) ∧
+      (∀ T, accessTy e.1 e.2.1 = some T → T ≠ t →
+        (∃ x, e.2.2.1 = some x ∧ isErr x = true) ∧ e.2.2.2.slot = e.1.slot) ∧
+      (∀ x, e.2.2.1 = some (.val x) → x.ty = t) :=
+  mtrace_keeps_type cv ops st
+
+/-- The abstract rule the driver checks implementation answers against (`CfgSpec.typedAccept`: "a
+    property keeps the type it was first read or written with until cleared; access with another
+    type is an error, also through a stale handle") accepts every answer of the model and tracks
+    its slot exactly — for operations through handles and for `prop::<T>` calls. -/
+theorem typed_rule_sound_for_model (cv : Ty → Val → Option TV)
+    (hcv : ∀ t v tv, cv t v = some tv → tv.ty = t) (s : Slot) :
+    (∀ h op, op.okFor h = true →
+      typedAccept s.abs (op.acc h) (handleOp h op s).2.1 = (true, (handleOp h op s).1.abs)) ∧
+    (∀ t, match typedSlot cv t s with
+      | .ok s1 => typedAccept s.abs (.openT t) .ok = (true, s1.abs)
+      | .error a => typedAccept s.abs (.openT t) a = (true, s.abs)) :=
+  ⟨fun h op hw => typedAccept_handleOp h op s hw, fun t => typedAccept_open cv hcv t s⟩
+
+/-- Single calls (`prop::<T>(key)` immediately followed by `get`, `or_default().get()` or `set`):
+    once a value of type `tv.ty` is held, it is still held at the end of every well-typed sequence,
+    accesses with another type answer `InvalidInput`, accesses with the right type never do and
+    never return a value of another type. -/
+theorem typed_slot_single_calls (cv : Ty → Val → Option TV) (tv : TV) (ops : List (Ty × TOp))
     (hw : ∀ o ∈ ops, o.2.wellTyped o.1) :
     (runSlot cv (.some tv) ops).1.held = some tv.ty ∧
     ∀ x ∈ ops.zip (runSlot cv (.some tv) ops).2,
@@ -143,9 +174,18 @@ example : (match Sim.run {} [.incl [(["a", "x"], "1")], .node ["a"], .incl [([AN
     | .ok s => s.mods.map fun m => (m.1, m.2.map (·.1))
     | .error _ => []) = [(["a"], [["x"], ["y"]])] := by decide
 
-/-- a well-typed access sequence with mismatching reads (hypothesis of `typed_slot_keeps_type`) -/
+/-- a well-typed access sequence with mismatching reads (hypothesis of `typed_slot_single_calls`) -/
 example : (runSlot conv (.some (.str "v")) [(.u64, .read), (.str, .readd), (.u64, .write (.u64 3))]).2 =
     [.invalid, .val (.str "v"), .invalid] := by decide
+
+/-- the stale-handle script: `h1 = prop::<u64>`, `h2 = prop::<String>` on an absent property,
+    `h2.set("w")`, then `h1.set(7)` panics, `h1.get()` panics, `h2.get()` still returns "w";
+    after a clear `h1.set(7)` succeeds and `h2.set("x")` panics -/
+example : (mtrace conv ⟨.none, []⟩
+    [.openH 1 .u64, .openH 2 .str, .via 2 (.set (.str "w")), .via 1 (.set (.u64 7)), .via 1 .get,
+     .via 2 .get, .rawClear, .via 1 (.set (.u64 7)), .via 2 (.set (.str "x"))]).map (·.2.2.1) =
+    [some .ok, some .ok, some .ok, some .panic, some .panic, some (.val (.str "w")), some .ok,
+     some .ok, some .panic] := by decide
 
 /-- the model's deserialiser satisfies the hypothesis of `typed_slot_first_use_fixes_type` -/
 example : ∀ t v tv, conv t v = some tv → tv.ty = t := by
